@@ -72,7 +72,7 @@ void guard_load(const char* type, const char* opname, bool aligned, const std::v
         volatile unsigned sink = 0;
         {
             TrapCtx& t = trap();
-            if (sigsetjmp(t.env, 0) == 0) { t.armed = 1; V v = call(p, n); sink += (unsigned)raw_lanes<V>(v)[0]; t.armed = 0; }
+            if (guarded_call([&]() { V v = call(p, n); sink += (unsigned)raw_lanes<V>(v)[0]; })) {}
             else { c.traps++; char b[64]; std::snprintf(b, sizeof b, "%s@%s", signame(t.sig), arena.where(t.addr)); viol("trap", cls, -1, TRAP_INPUT(n, pl), b, "no signal"); }
         }
         c.cases++; c.lanes += m; c.cls_add(cls);
@@ -97,10 +97,10 @@ void guard_store(const char* type, const char* opname, bool aligned, const std::
         if (!p) continue;
         arena.fill(SENT);
         uint32_t cls = (n > 255 ? 255 : n) | (pl << 8);
-        bool ok = false;
+        volatile bool ok = false;
         {
             TrapCtx& t = trap();
-            if (sigsetjmp(t.env, 0) == 0) { t.armed = 1; call(p, v, n); t.armed = 0; ok = true; }
+            if (guarded_call([&]() { call(p, v, n); })) { ok = true; }
             else { c.traps++; char b[64]; std::snprintf(b, sizeof b, "%s@%s", signame(t.sig), arena.where(t.addr)); viol("trap", cls, -1, TRAP_INPUT(n, pl), b, "no signal"); }
         }
         c.cases++; c.lanes += m; c.cls_add(cls);
@@ -199,7 +199,7 @@ template<class V> void run_gs(const char* type, std::true_type) {
                 uint32_t cls = (n > 255 ? 255 : n) | ((t % 6) << 8);
                 volatile unsigned sink = 0;
                 TrapCtx& tc = trap();
-                if (sigsetjmp(tc.env, 0) == 0) { tc.armed = 1; V v = form == 0 ? avel::gather<V>(mid, IV(idx), n) : gct[n](mid, IV(idx)); sink += (unsigned)raw_lanes<V>(v)[0]; tc.armed = 0; }
+                if (guarded_call([&]() { V v = form == 0 ? avel::gather<V>(mid, IV(idx), n) : gct[n](mid, IV(idx)); sink += (unsigned)raw_lanes<V>(v)[0]; })) {}
                 else { c.traps++; char b[64]; std::snprintf(b, sizeof b, "%s@%s", signame(tc.sig), arena.where(tc.addr));
                        long el = ((long)((unsigned char*)tc.addr - (unsigned char*)mid)) / (long)sizeof(T); int lane = -1; for (unsigned i = 0; i < W; ++i) if ((long)idx[i] == el) lane = (int)i;
                        viol("trap", cls, lane, "n=" + std::to_string(n) + ",fault_in=" + arena.where(tc.addr) + ",fault_lane=" + std::to_string(lane) + (lane >= (int)m ? ",inactive" : ",active"), b, "no signal"); }
@@ -219,9 +219,9 @@ template<class V> void run_gs(const char* type, std::true_type) {
                 std::array<IT, V::width> idx; mkidx(idx, m, t);
                 arena.fill(SENT);
                 uint32_t cls = (n > 255 ? 255 : n) | ((t % 6) << 8);
-                bool ok = false;
+                volatile bool ok = false;
                 TrapCtx& tc = trap();
-                if (sigsetjmp(tc.env, 0) == 0) { tc.armed = 1; if (form == 0) avel::scatter(mid, v, IV(idx), n); else sct[n](mid, v, IV(idx)); tc.armed = 0; ok = true; }
+                if (guarded_call([&]() { if (form == 0) avel::scatter(mid, v, IV(idx), n); else sct[n](mid, v, IV(idx)); })) { ok = true; }
                 else { c.traps++; char b[64]; std::snprintf(b, sizeof b, "%s@%s", signame(tc.sig), arena.where(tc.addr));
                        long el = ((long)((unsigned char*)tc.addr - (unsigned char*)mid)) / (long)sizeof(T); int lane = -1; for (unsigned i = 0; i < W; ++i) if ((long)idx[i] == el) lane = (int)i;
                        viol("trap", cls, lane, "n=" + std::to_string(n) + ",fault_in=" + arena.where(tc.addr) + ",fault_lane=" + std::to_string(lane) + (lane >= (int)m ? ",inactive" : ",active"), b, "no signal"); }
